@@ -425,6 +425,8 @@ pub struct StoreOut {
     pub divisors: Vec<Uint>,
     pub n_partials: usize,
     pub n_doubles: usize,
+    pub n_combined12: usize,
+    pub n_cycles: [usize; 8],
 }
 
 pub struct RunOut {
@@ -578,6 +580,7 @@ pub fn run_store(spec: &Spec, cfg: SimConfig) -> RunOut {
         }
         let set = set.into_inner().unwrap();
         let (np, nd) = (set.n_partials, set.n_doubles);
+        let (nc12, ncyc) = (set.n_combined12, set.n_cycles);
         let cycles = set.into_inner();
         let divisors = if cycles.is_empty() {
             vec![]
@@ -589,6 +592,8 @@ pub fn run_store(spec: &Spec, cfg: SimConfig) -> RunOut {
             divisors,
             n_partials: np,
             n_doubles: nd,
+            n_combined12: nc12,
+            n_cycles: ncyc,
         }
     });
     simcore::probe::set_observer(None);
@@ -722,6 +727,14 @@ impl Family for RelstoreFamily {
             rep.stat("map_invariant_breaks", out.obs.map_invariant_breaks);
             if let (Some(a), Some(b)) = (&out.out, &reference.out) {
                 rep.stat("cycles_total", a.cycles as u64);
+                // reach probes: which combination paths of the store were taken
+                rep.stat("probe_cycles_of_length_1", a.n_cycles[0] as u64);
+                rep.stat("probe_cycles_of_length_2", a.n_cycles[1] as u64);
+                rep.stat("probe_cycles_of_length_3", a.n_cycles[2] as u64);
+                rep.stat("probe_cycles_of_length_4_or_more", a.n_cycles[3..].iter().sum::<usize>() as u64);
+                rep.stat("probe_double_combined_with_one_known_prime", a.n_combined12 as u64);
+                rep.stat("probe_partials_seen", a.n_partials as u64);
+                rep.stat("probe_doubles_seen", a.n_doubles as u64);
                 if a.cycles != b.cycles {
                     rep.stat("cycle_count_differs_from_sequential_history", 1);
                 }
